@@ -289,6 +289,15 @@ func genC11(e *emitter, tier string) {
 				}
 			}
 		}
+		if i%8 == 6 {
+			// the same object twice, except that one integer is written as the float of the
+			// same value (1 and 1.0 are equal wherever they stand, inside atomic lists too)
+			if a, ok := numSwap(e, deepCopy(l)); ok {
+				if ta := typedOf(sd, tr, a, true); ta != nil {
+					r = a
+				}
+			}
+		}
 		if i%8 == 5 {
 			// the same object twice, except that one field of one list member is an explicit
 			// null on the left (a key field with a default, now and then: the member's identity
@@ -308,6 +317,47 @@ func genC11(e *emitter, tier string) {
 		e.line(fmt.Sprintf("(c11 %s %s %s %s %s %s %s)", quote(sd.id), sexpTypeRef(tr), sexpValue(l), sexpValue(r),
 			doCompare(tl, tr2), doCompare(tr2, tl), doCompare(null, tr2)))
 	}
+}
+
+// v with one small integer replaced by the float of the same value
+func numSwap(e *emitter, v interface{}) (interface{}, bool) {
+	type slot struct {
+		m M
+		k string
+		l L
+		i int
+	}
+	var slots []slot
+	var walk func(x interface{})
+	walk = func(x interface{}) {
+		switch t := x.(type) {
+		case M:
+			for _, k := range sortedKeys(t) {
+				if n, ok := t[k].(int64); ok && n > -1000 && n < 1000 {
+					slots = append(slots, slot{m: t, k: k})
+				}
+				walk(t[k])
+			}
+		case L:
+			for i, y := range t {
+				if n, ok := y.(int64); ok && n > -1000 && n < 1000 {
+					slots = append(slots, slot{l: t, i: i})
+				}
+				walk(y)
+			}
+		}
+	}
+	walk(v)
+	if len(slots) == 0 {
+		return nil, false
+	}
+	sl := slots[e.rng.Intn(len(slots))]
+	if sl.m != nil {
+		sl.m[sl.k] = float64(sl.m[sl.k].(int64))
+	} else {
+		sl.l[sl.i] = float64(sl.l[sl.i].(int64))
+	}
+	return v, true
 }
 
 // v with one field of one list member (a map inside a list) set to null; prefers the
